@@ -27,7 +27,7 @@ QUICK = [
     ("call", {"Fam": "<- FamCallPre", "LitPool": "<- Lits3", "Names": "<- Names1", "BinOps": "<- OpsFew",
               "Prelude": "<- PreFunc", "MaxN": "4", "MaxStk": "3", "MaxStmts": "1"}, None),
     ("foppre", {"Fam": "<- FamFopPre", "LitPool": "<- Lits2", "Names": "<- Names1", "Prelude": "<- PreFop",
-                "MaxN": "4", "MaxStk": "3", "MaxStmts": "1"}, None),
+                "MaxN": "5", "MaxStk": "3", "MaxStmts": "1"}, None),      # 5 nodes: the smallest that holds a reduce
     ("misc", {"Fam": "<- FamMisc", "LitPool": "<- LitsFmt", "Names": "<- Names1", "BinOps": "<- Ops2",
               "TyNames": "<- TySome", "MaxN": "3", "MaxStk": "3", "MaxStmts": "1"}, None),
     ("cast", {"Fam": "<- FamCast", "LitPool": "<- LitsCast", "Names": "<- Names1", "BinOps": "<- Ops2",
@@ -232,7 +232,7 @@ THOROUGH = [
     ("call", {"Fam": "<- FamCallPre", "LitPool": "<- Lits3", "Names": "<- Names1", "BinOps": "<- OpsFew",
               "Prelude": "<- PreFunc", "MaxN": "5", "MaxStk": "3", "MaxStmts": "1"}, None),
     ("foppre", {"Fam": "<- FamFopPre", "LitPool": "<- Lits3", "Names": "<- Names1", "Prelude": "<- PreFop",
-                "MaxN": "4", "MaxStk": "3", "MaxStmts": "2"}, None),
+                "MaxN": "5", "MaxStk": "3", "MaxStmts": "1"}, None),
     ("misc", {"Fam": "<- FamMisc", "LitPool": "<- LitsFmt", "Names": "<- Names1", "BinOps": "<- Ops2",
               "TyNames": "<- TySome", "MaxN": "4", "MaxStk": "3", "MaxStmts": "1"}, None),
     ("cast", {"Fam": "<- FamCast", "LitPool": "<- LitsCast", "Names": "<- Names1", "BinOps": "<- Ops2",
